@@ -650,9 +650,110 @@ def apply_ctor_values(root):
             n.pop("f", None)
 
 
+def desugar_bool_adapters(root):
+    """`c.then_some(v)` is `if c { Some(v) } else { None }`, `c.then(|| v)` likewise"""
+    def visit(holder, key):
+        n = holder[key]
+        if isinstance(n, list):
+            for i in range(len(n)):
+                visit(n, i)
+            return
+        if not isinstance(n, dict):
+            return
+        for k_ in list(n.keys()):
+            if k_ != "mac" and isinstance(n[k_], (dict, list)):
+                visit(n, k_)
+        if n.get("k") == "mcall" and n["name"] in ("then_some", "then") and len(n.get("args", [])) == 1 and "bool" in (n.get("path") or "") + (n["recv"].get("ty") or ""):
+            v = n["args"][0]
+            if n["name"] == "then":
+                cl = v
+                while cl.get("k") == "ref":
+                    cl = cl["e"]
+                if cl.get("k") != "closure" or cl.get("params"):
+                    return
+                v = cl["body"]
+            some = {"k": "ctor", "dk": "ctor_variant", "path": "core::option::Option::Some", "args": [v], "ty": n.get("ty"), "sp": n.get("sp")}
+            none = {"k": "def", "dk": "ctor_variant", "path": "core::option::Option::None", "ty": n.get("ty"), "sp": n.get("sp")}
+            holder[key] = {"k": "if", "cond": n["recv"], "then": {"k": "blockexpr", "b": {"k": "block", "stmts": [], "tail": some}, "ty": n.get("ty")},
+                           "else": {"k": "blockexpr", "b": {"k": "block", "stmts": [], "tail": none}, "ty": n.get("ty")}, "ty": n.get("ty"), "sp": n.get("sp"), "desugared": n["name"]}
+    box = {"r": root}
+    visit(box, "r")
+    return box["r"]
+
+
+def unroll_literal_loops(root):
+    """`for P in [e1, e2] { body }` (a literal array of at most four elements, directly or through an immutable let; no break / continue for this
+    loop) is `{ let P = e1; body } { let P = e2; body }`: rules see each element's pass on its own"""
+    lets = {}
+    for n in walk(root):
+        if n.get("k") == "let" and "init" in n and n["pat"].get("k") == "pbind" and not n["pat"].get("mut") and "els" not in n:
+            lets[n["pat"]["id"]] = n["init"]
+
+    def array_of(it):
+        it = peel(it)
+        for _ in range(4):
+            if it.get("k") == "mcall" and it["name"] in ("into_iter", "iter") and not it["args"]:
+                it = peel(it["recv"])
+            elif it.get("k") == "local" and it["id"] in lets:
+                it = peel(lets[it["id"]])
+            else:
+                break
+        return it if it.get("k") == "array" and 1 <= len(it.get("es", [])) <= 4 else None
+
+    def own_jumps(body):
+        # break / continue that target this loop (not a nested one)
+        stack = [body]
+        while stack:
+            x = stack.pop()
+            if isinstance(x, dict):
+                if x.get("k") in ("break", "continue"):
+                    return True
+                if x.get("k") in ("for", "while", "loop", "closure"):
+                    continue
+                stack.extend(v for k_, v in x.items() if k_ != "mac" and isinstance(v, (dict, list)))
+            elif isinstance(x, list):
+                stack.extend(v for v in x if isinstance(v, (dict, list)))
+        return False
+
+    def visit(holder, key):
+        n = holder[key]
+        if isinstance(n, list):
+            for i in range(len(n)):
+                visit(n, i)
+            return
+        if not isinstance(n, dict):
+            return
+        for k_ in list(n.keys()):
+            if k_ != "mac" and isinstance(n[k_], (dict, list)):
+                visit(n, k_)
+        if n.get("k") == "for":
+            arr = array_of(n["iter"])
+            if arr is None or own_jumps(n["body"]):
+                return
+            copies = []
+            for el in arr["es"]:
+                _COPY_COUNTER[0] += 1
+                off_ = 10 ** 12 + 10 ** 6 * _COPY_COUNTER[0]
+                body_c = copy.deepcopy(n["body"])
+                pat_c = copy.deepcopy(n["pat"])
+                bound_ = {y["id"] for part in (body_c, pat_c) for y in walk(part) if y.get("k") == "pbind" and isinstance(y.get("id"), int)}
+                for part in (body_c, pat_c):
+                    for y in walk(part):
+                        if y.get("k") in ("local", "pbind") and y.get("id") in bound_:
+                            y["id"] = y["id"] + off_
+                copies.append({"k": "semi", "e": {"k": "blockexpr", "b": {"k": "block", "stmts": [{"k": "let", "pat": pat_c, "init": el, "sp": n.get("sp"), "unrolled": True},
+                                                                                                      {"k": "semi", "e": body_c}]}, "ty": "()", "sp": n.get("sp")}})
+            holder[key] = {"k": "blockexpr", "b": {"k": "block", "stmts": copies}, "ty": "()", "sp": n.get("sp"), "unrolled_for": True}
+    box = {"r": root}
+    visit(box, "r")
+    return box["r"]
+
+
 def prepare(f, crate, force=()):
     """inlined copy + alias registration (idempotent per function object)"""
     g = inline_helpers(f, crate, force=force)
+    g["body"] = desugar_bool_adapters(g["body"])
+    g["body"] = unroll_literal_loops(g["body"])
     apply_ctor_values(g["body"])
     split_tuple_lets(g["body"])
     _tree.ALIASES.update(collect_aliases(g))
